@@ -22,6 +22,17 @@ def run(tier, seed):
                   consts=K("pair_rt_rearm", {"write", "tmo", "tmor", "flush"})),
              dict(name="C20_known_wt", key="pair-write-timeout-wrong-endpoint",
                   consts=K("pair_wt_endpoint", {"write", "enable", "tmo", "tmow"}))]
+    DIRT = {"write", "enable", "loop", "wmr", "read", "tmo"}
+    ALLW = [(lo, hi) for lo in (0, 3) for hi in (0, 1, 2)]
+    # directed: set_timeouts(read) while the reader is suspended at its high watermark: no timeout while suspended,
+    # exactly one T after the application drained
+    TSUS = lambda k: dict(name="C20_%s_tmo_suspended" % k, scripts=bc.pair_tmo_suspended_family(k),
+                          consts=bc.consts(k, DIRT, 9, sizes=(1, 2), wms=ALLW, durs=(0, 1, 2, 3), drains=(0, 99)))
+    # directed: stalled peer (kernel buffer full, unit = 256 KB), the application keeps appending at intervals < T:
+    # TIMEOUT|WRITING fires T after the last successful transfer (how much went out is left open)
+    STALL = lambda d: dict(name="C20_sock_stall_" + ("def" if d else "imm"), scripts=bc.sock_stall_family(), units=(262144,),
+                           consts=bc.consts("sock", DIRT, 9, sizes=(1, 4), wms=((0, 0),), durs=(0, 1, 2, 3), drains=(0, 99),
+                                            stall=True, wirecap=1000, defer=d), invariants=("TypeOK", "TimeoutOnlyIfDue"))
     quick_gen = [
         # every 4-step history of: writer writes / reader sets a read timeout, enables, loops with time passing
         # (also the bounded model check of the quick tier: invariants on every state of every history)
@@ -36,6 +47,7 @@ def run(tier, seed):
                                                     sizes=(1, 2), drains=(0, 99), wms=((0, 0),), durs=(0, 1, 2, 3), script_until=1),
              simulate=25),
         dict(name="C20_sock_" + ("def" if df else "imm"), consts=SK(df, 10), simulate=25),
+        TSUS("pair"), STALL(df),
     ]
     plan = {
         "mc": [] if q else [("C20_mc_pair", bc.consts("pair", T, 5, sizes=(1,), drains=(0, 99), wms=((0, 0),), durs=(0, 1, 2),
@@ -57,6 +69,7 @@ def run(tier, seed):
             dict(name="C20_sock_def", consts=SK(True, 14), simulate=300),
             dict(name="C20_filt_read", consts=bc.consts("filt", T | {"tmor"}, 12, sizes=(1, 2), drains=(0, 99), wms=((0, 0),),
                                                         durs=(0, 1, 2, 3), script_until=1, filtfn="id"), simulate=300),
+            TSUS("pair"), TSUS("filt"), STALL(False), STALL(True),
         ],
         "known": [] if q else known,
         "known_fixed": [dict(name="C20_known_stale", key="sock-stale-io-timeout",
